@@ -175,7 +175,7 @@ term_re = re.compile(
     +
     # Valid terms for the parser
     r'''
-        (?: (?P<_FUNCTION> [_A-Za-z][_A-Za-z0-9.]*[_A-Za-z0-9]* ) \s* (?= \( ) )|
+        (?: (?P<_FUNCTION> [_A-Za-z][_A-Za-z0-9.]* ) \s* (?= \( ) )|
 
         (?:
             (?: \{ \s* (?P<_PARAMETER> [_A-Za-z][_A-Za-z0-9]* ) \s* \} )|
